@@ -124,7 +124,9 @@ Reopen ==
   /\ rootKey' = diskRoot /\ rootDirty' = FALSE /\ dirty' = {}
   /\ UNCHANGED <<kv, tbl, diskRoot, committed, steps>>
 
-Next == (\E k \in Keys, v \in 0..MaxV : Put(k, v)) \/ (~committed /\ Commit) \/ Reopen
+PutAny == \E k \in Keys, v \in 0..MaxV : Put(k, v)
+CommitDirty == ~committed /\ Commit
+Next == PutAny \/ CommitDirty \/ Reopen
 Spec == Init /\ [][Next]_vars
 
 ----------------------------------------------------------------------------
